@@ -19,6 +19,9 @@ deriving Repr, DecidableEq
 
 structure Obs where
   endT : Int
+  /-- time the driver PROCESS was kept from running during the case (heartbeat: summed excess of the gaps between 5 ms ticks
+  that were longer than 50 ms), ns: a stall of the machine lengthens the run by that much without any doing of the code -/
+  stall : Int := 0
   err : String
   total : Nat
   bad : Nat
@@ -189,7 +192,7 @@ def judge (i : Input) (o : Obs) : String :=
       s!"fail:lost-token:fired={countDec o 'F'},discarded={countDec o 'D'},total={o.total}"
     else if complete && !tokenSetOk i o then
       s!"fail:lost-token:the tokens acted on are not the tokens of the profile"
-    else if i.mode == "engine" && !i.cancelled && runLen > i.profDur + extraStart i + maxOverdue + i.maxResp + boundFail then
+    else if i.mode == "engine" && !i.cancelled && runLen > i.profDur + extraStart i + maxOverdue + i.maxResp + boundFail + o.stall then
       s!"fail:run-bound:length={runLen / 1000000}ms,bound={(i.profDur + extraStart i + maxOverdue + i.maxResp) / 1000000}ms"
     else if i.mode == "engine" && !i.cancelled && runLen > i.profDur + extraStart i + maxOverdue + i.maxResp + boundMargin then
       "skip:inconclusive-run-length"
